@@ -152,6 +152,54 @@ def vo_key():
     return h.hexdigest()
 
 
+def strip_comments(text):
+    out, depth, i = [], 0, 0
+    while i < len(text):
+        if text.startswith('(*', i):
+            depth += 1
+            i += 2
+        elif text.startswith('*)', i) and depth > 0:
+            depth -= 1
+            i += 2
+        else:
+            if depth == 0 or text[i] == '\n':
+                out.append(text[i])
+            i += 1
+    return ''.join(out)
+
+
+FORBIDDEN = re.compile(r'\b(Admitted|admit|Axiom|Axioms|Parameter|Parameters|Conjecture|Conjectures|give_up)\b|Admit Obligations|Unset\s+Guard\s+Checking|Unset\s+Positivity\s+Checking|Unset\s+Universe\s+Checking|bypass_check|type-in-type|impredicative-set')
+SECTION_LOCAL = re.compile(r'^\s*(Variable|Variables|Hypothesis|Hypotheses|Context)\b')
+
+
+def scan_forbidden():
+    """No axiom-declaring vernacular anywhere in the development (comments stripped), and no Variable /
+    Hypothesis / Context outside a Section."""
+    hits = []
+    files = [l.strip() for l in open(COQ + '/_CoqProject') if l.strip().endswith('.v')]
+    files += ['../ocaml/Extract.v']
+    for f in files:
+        try:
+            text = strip_comments(open(COQ + '/' + f).read())
+        except OSError:
+            continue
+        depth = 0
+        for no, line in enumerate(text.split('\n'), 1):
+            if re.match(r'^\s*(Section|Module\s+Type)\s+\w+', line):
+                depth += 1 if line.lstrip().startswith('Section') else 0
+            m = FORBIDDEN.search(line)
+            if m:
+                hits.append({'file': f, 'line': no, 'lemma': m.group(0), 'error': 'forbidden vernacular: ' + line.strip()[:200]})
+            if SECTION_LOCAL.match(line) and depth == 0:
+                hits.append({'file': f, 'line': no, 'lemma': line.strip().split()[0], 'error': 'declared outside a Section: ' + line.strip()[:200]})
+            if re.match(r'^\s*End\s+\w+\s*\.', line) and depth > 0:
+                depth -= 1
+    for l in open(COQ + '/_CoqProject'):
+        if re.search(r'type-in-type|impredicative-set|-vos|-vok', l):
+            hits.append({'file': '_CoqProject', 'line': 0, 'lemma': l.strip(), 'error': 'forbidden flag'})
+    return hits
+
+
 def coqchk_all(log):
     """Re-check every compiled property module and everything it depends on with the independent
     checker (one invocation for the whole development: closures overlap), cached on the state of the
@@ -307,6 +355,10 @@ def main():
         targets = cfg['coq_targets']
         ok, failures, out = coq_build(targets, log)
         closed, axioms = parse_assumptions(out)
+        forb = scan_forbidden()
+        if forb:
+            failures += forb
+            ok = False
         n_obl, obl_names = count_obligations(cfg['obligation_files'])
         failed_lemmas = sorted(set(f['file'] + ':' + f['lemma'] for f in failures))
         # a failed file blocks every obligation in it from being checked: count them all as undischarged
